@@ -411,6 +411,7 @@ func TestC07(t *testing.T) {
 	rec.Require("set:conflict-free", 0.25)
 	rec.Require("set:two-or-more-extending-files", 0.10)
 	rec.Require("set:file-extends-own-type", 0.03)
+	rec.Require("set:scaled", 0.08)
 	for _, k := range gen.ConflictKinds {
 		rec.Require("conflict:"+k, 0.02)
 	}
